@@ -342,21 +342,21 @@ def type_sidecar(row):
     s += '@impl-items %s | impl WritableAVP for %s\n    open spec fn wv(&self) -> AvpV { self.av() }\n' % (mod, name)
     if layout:
         ml = min_len(layout)
-        s += '@fn %s::%s::try_read\n@ret res\n@safety C01,C02\n' % (mod, name)
+        s += '@fn %s::%s::try_read\n@ret res\n@safety C01\n' % (mod, name)
         if name in EXTERNAL_TRY_READ:
             s += '@external_body\n'
         s += '@ensures\n'
-        s += '    [C05:avp%d.equiv.accept] res is Ok <==> pdec_%d(old(reader).rem()) is Some,\n' % (num, num)
-        s += '    [C05:avp%d.equiv.value] res is Ok ==> avp_eq(res->Ok_0.av(), pdec_%d(old(reader).rem())->Some_0),\n' % (num, num)
-        s += ('    [C03,C11:avp%d.on_image] forall |v: AvpV| pok_%d(v) && old(reader).rem() == #[trigger] penc_%d(v)\n'
+        s += '    [C05;C10,C16:avp%d.equiv.accept] res is Ok <==> pdec_%d(old(reader).rem()) is Some,\n' % (num, num)
+        s += '    [C05;C10,C17:avp%d.equiv.value~avp%d.equiv.accept] res is Ok ==> avp_eq(res->Ok_0.av(), pdec_%d(old(reader).rem())->Some_0),\n' % (num, num, num)
+        s += ('    [C03,C11;C10:avp%d.on_image] forall |v: AvpV| pok_%d(v) && old(reader).rem() == #[trigger] penc_%d(v)\n'
               '        ==> res is Ok && avp_eq(res->Ok_0.av(), v),\n') % (num, num, num)
         s += ('    [C20:avp%d.err_id] spec_payload_err(%d, old(reader).rem()) is Some\n'
               '        ==> res is Err && res->Err_0 == spec_payload_err(%d, old(reader).rem())->Some_0,\n' % (num, num, num))
         for it in layout:
             if it[0] in ('utf8', 'optutf8'):
                 s += '@closure 1\n@ret r: DecodeError\n@ensures r == DecodeError::InvalidUtf8(%d)\n' % num
-    s += '@fn %s::<%s as QueryableAVP>::get_length\n@safety C07\n' % (mod, name)
-    s += '@fn %s::<%s as WritableAVP>::write\n@safety C06,C09\n' % (mod, name)
+    s += '@fn %s::<%s as QueryableAVP>::get_length\n@safety C07;C06\n' % (mod, name)
+    s += '@fn %s::<%s as WritableAVP>::write\n@safety C06;C09\n' % (mod, name)
     return s
 
 
